@@ -6,7 +6,7 @@ exception that propagates)."""
 import runner_common as rc
 
 LEVEL = "proof"
-OPTS = {"mode": "execute", "p_rc": 0.7, "p_handler": 0.3, "p_abort": 0.5, "p_abort_true": 0.6, "p_budget": 0.35,
+OPTS = {"entries": rc.ENTRIES_NO_BREAKER_EXECUTE, "mode": "execute", "p_rc": 0.7, "p_handler": 0.3, "p_abort": 0.5, "p_abort_true": 0.6, "p_budget": 0.35,
         "p_special": 0.12}
 
 
